@@ -32,7 +32,10 @@ def mp_value(e: Any, rep: dict) -> Any:
 def canonical_case(d: Any) -> Optional[tuple[str, str, str]]:
     """(key, outcome, violation)"""
     from symplyphysics.docs.printer_code import code_str
-    e = printspace.build(d)
+    try:
+        e = printspace.build(d)
+    except OverflowError:
+        return None  # sympy cannot even build this power of a huge float
     if e.has(sp.zoo, sp.nan) or e in (sp.oo, -sp.oo):
         return None
     key = sp.srepr(e)
@@ -61,6 +64,9 @@ def canonical_case(d: Any) -> Optional[tuple[str, str, str]]:
             return key, "undefined", ""
         if mpmath.isnan(want) or mpmath.isinf(want):
             return key, "undefined", ""
+        if want != 0 and abs(mpmath.log10(abs(want))) > 5000:
+            return key, "undefined", ""  # astronomically large / small: a 15-digit float in an
+            # exponent makes the comparison meaningless
         if not values.close(got, want, tol, 1e-40):
             return key, "checked", (f"{text!r} parses to {mpmath.nstr(got, 15)} but the expression "
                 f"{short(e, 80)} is {mpmath.nstr(want, 15)} at {pt}")
